@@ -66,6 +66,9 @@ func newCacheWorld(t *T, sizes []int) *cacheWorld {
 		must(t, hackpadfs.WriteFullFile(w.srcInner, paths[i], data, []hackpadfs.FileMode{0644, 0600, 0444}[c.Draw(3)]))
 	}
 	w.src = &capCore{t: t, inner: w.srcInner, faultAt: -1, label: "src.", opens: map[string]int{}, reads: map[string]int{}, readShape: c.Weighted(3, 1, 1, 1)}
+	if c.Chance(1, 3) {
+		w.src.readErr = io.ErrUnexpectedEOF
+	}
 	w.store = &capCore{t: t, inner: w.storeIn, faultAt: -1, label: "store.", writing: map[string]int{}, short: c.Chance(1, 2), lossyClose: true}
 	switch c.Draw(4) {
 	case 0:
